@@ -60,6 +60,11 @@ CLAIMED.update({
              note='indices are positions in the declared option list over the members active together; permutation / non-replacing constraints with fewer options than choices are infeasible by documentation and excluded; known findings attributed by clause + trigger',
              text='Every description of the bounded family (constraint type x 2-3 choices x 2-4 options x five placements) is explored at graph level in all orders - TLC checks with ConsOK that exactly the documented index combinations remain reachable, that forced choices had no other viable option and that unsatisfiable branches become infeasible - and at processor level with both encoders over the whole declared space and the enumeration (missing / inadmissible / duplicated combinations). Linked design-variable nodes must carry the same option index or the same relative position within their bounds. get_valid_idx_combinations is compared row by row with ConOK on every small index matrix.'),
 })
+CLAIMED.update({
+ 'C08': dict(cat='model_checking', tech='TLA+ machine over a family of live graph objects (DSGResolve.tla: Persist action property, shared-attribute refinement) model-checked by TLC; TLC-generated derive sequences replayed on real objects with every live object re-observed after every operation; Mon_Persist', ref='3 C08',
+             note='degree attributes read from node objects before any recomputing call; operations the object does not offer are skipped and counted; <= 4 live objects, depth <= 4; TLC + CommunityModules trusted',
+             text='TLC checks on each description that DSGResolve satisfies Persist (no derive operation changes an existing object) and DegreesPersistent with value semantics, and that sharing node attributes between objects violates DegreesPersistent in two steps (the known finding). One shortest derive sequence per distinct abstract state over {Copy, TakeSel, ApplyConn, SetDV, ConstrainCopy, Decode} - applied to any live object, not only the newest - is replayed on real DSG objects; after each operation every live object is observed through the full list of the property and TLC checks that no old object changed (graph, status, next choices and options, valid connection sets, connector degrees, stored values).'),
+})
 NA = {}
 
 def check_entry(pid):
